@@ -775,10 +775,12 @@ func concat(a ...MalType) (MalType, error) {
 	if len(a) == 0 {
 		return List{}, nil
 	}
-	slc1, e := GetSlice(a[0])
+	slc0, e := GetSlice(a[0])
 	if e != nil {
 		return nil, e
 	}
+	// copy: appending in place would write into spare capacity shared with the first argument
+	slc1 := append([]MalType{}, slc0...)
 	for i := 1; i < len(a); i += 1 {
 		slc2, e := GetSlice(a[i])
 		if e != nil {
@@ -917,7 +919,8 @@ func conj(a ...MalType) (MalType, error) {
 		}
 		return List{Val: append(new_slc, seq.Val...)}, nil
 	case Vector:
-		new_slc := append(seq.Val, a[1:]...)
+		// copy: appending in place would write into spare capacity shared with other vectors
+		new_slc := append(append([]MalType{}, seq.Val...), a[1:]...)
 		return Vector{Val: new_slc}, nil
 	case HashMap:
 		if len(a)%2 != 1 {
